@@ -198,8 +198,116 @@ class MAClone(Unit):
             st.oblige(f"ma_environment.{f}: clone content equals the source's", _content_same(st.load(lo), ctx["ec0"][f], _ENV_FIELDS[f]))
 
 
+# ---- Agent.clone(ma_problem, name=None): the new agent is constructed FOR the problem given (the constructor takes the type-registration and
+# name-check callbacks from it), carries the given name (the source's by default), fresh copies of the five containers, and the clones of the
+# source's actions in order; the source is unchanged.
+from unified_planning.model.multi_agent import agent as _agm
+from pyvc.engine import LoopSpec
+from pyvc.values import Str, zint
+
+_Action = Ref("Action22")
+_Action.observers["clone"] = ((), _Action)
+_action_clone = None        # resolved lazily: the uninterpreted function behind the observer
+_AG_FIELDS = {"_public_fluents": ("list", _ElemT["Fluent"]), "_fluents": ("list", _ElemT["Fluent"]), "_fluents_defaults": ("dict", _ElemT["Fluent"], _ElemT["FNode"]),
+              "_private_goals": ("list", _Goal), "_public_goals": ("list", _Goal)}
+QN_AC = "unified_planning.model.multi_agent.agent.Agent.clone"
+
+
+class AgentClone(Unit):
+    prop = "C22"
+    allowed_raises = ()
+
+    def __init__(self, named):
+        self.named = named
+        self.name = "Agent.clone" + ("[name given]" if named else "")
+        self.doc = ("the result is a new agent constructed for the problem passed in, named as asked, with fresh copies of the source's containers and the "
+                    "clones of its actions in order; the source is unchanged")
+
+    def target(self):
+        return _agm.Agent.clone
+
+    def configure(self, eng):
+        from pyvc.values import CList, CDict
+        from pyvc import builtins as B
+        eng.partial_classes.add(_agm.Agent)
+        unit = self
+
+        def ctor(eng_, st, args, kw):
+            fields = {f: st.alloc(CList([]) if spec[0] == "list" else CDict({}), spec[0]) for f, spec in _AG_FIELDS.items()}
+            fields.update({"_name": args[0], "_g_owner": args[1], "_actions": st.alloc(CList([]), "list")})
+            new = st.alloc(Rec(_agm.Agent, fields), "new_ag")
+            st.ghost["ag_new"] = st.ghost.get("ag_new", ()) + (new,)
+            yield st, new
+        eng.contracts[_agm.Agent] = ctor
+
+        def add_action(eng_, st, args, kw):
+            # assumed: adding the clone of an action of a well-formed agent to a new agent of the same problem appends it and raises nothing
+            lst = st.getfield(args[0], "_actions")
+            cur = B.as_sseq(eng_, st, eng_.deref(st, lst), _Action)
+            st.store(lst, cur.append(args[1]))
+            yield st, None
+        eng.contracts[_agm.Agent.add_action] = add_action
+
+        def inv(L):
+            i = zint(L._i)
+            got = B.as_sseq(L._eng, L.st, L.field(L.new_ag, "_actions"), _Action)
+            src = unit._actions0
+            j = z3.Int(fresh_name("j"))
+            f = B._uf("Action22.clone()", _Action.z3sort(), _Action.z3sort())
+            return [("the new agent holds the clones of the actions seen so far, in order",
+                     z3.And(got.n == i, z3.ForAll([j], z3.Implies(z3.And(0 <= j, j < i), z3.Select(got.arr, j) == f(z3.Select(src.arr, j))))))]
+        eng.loops[(QN_AC, 0)] = LoopSpec(inv, modifies=["a", "new_ag._actions"], types={"a": _Action, "new_ag._actions": Seq(_Action)})
+
+    def setup(self, eng, st):
+        src, c0 = {}, {}
+        for f, spec in _AG_FIELDS.items():
+            v, kind = _fresh_container(eng, st, spec, "self" + f)
+            c0[f], src[f] = v, st.alloc(v, kind)
+        acts = eng.fresh_of(st, Seq(_Action), "self_actions")
+        self._actions0 = acts
+        src["_actions"] = st.alloc(acts, "list")
+        name0 = Str.fresh("self_name")
+        fields = dict(src)
+        fields.update({"_name": name0})
+        selfv = st.alloc(Rec(_agm.Agent, fields), "self")
+        prob = st.alloc(Rec(_map.MultiAgentProblem, {}), "ma_problem")
+        given = Str.fresh("name") if self.named else None
+        return [selfv, prob, given], {}, dict(selfv=selfv, prob=prob, src=src, c0=c0, acts=acts, name0=name0, given=given)
+
+    def post(self, eng, ctx, st, out):
+        from pyvc import builtins as B
+        if out[0] != "return":
+            return
+        new = out[1]
+        made = st.ghost.get("ag_new", ())
+        st.oblige("the result is the one agent constructed by this call", z3.BoolVal(isinstance(new, Loc) and len(made) == 1 and made[0].id == new.id and new.id != ctx["selfv"].id))
+        if not isinstance(new, Loc):
+            return
+        owner = st.getfield(new, "_g_owner")
+        st.oblige("the new agent is constructed for the problem passed in", z3.BoolVal(isinstance(owner, Loc) and owner.id == ctx["prob"].id))
+        nm = st.getfield(new, "_name")
+        want_nm = ctx["given"] if self.named else ctx["name0"]
+        st.oblige("the new agent carries the requested name (the source's by default)", z3.BoolVal(isinstance(nm, type(want_nm))) if not hasattr(nm, "z") else nm.z == want_nm.z)
+        for f in list(_AG_FIELDS) + ["_actions"]:
+            ls, lo = st.getfield(ctx["selfv"], f), st.getfield(new, f)
+            st.oblige(f"{f}: the source still refers to its own container", z3.BoolVal(isinstance(ls, Loc) and ls.id == ctx["src"][f].id))
+            st.oblige(f"{f}: the new agent holds a fresh container, not the source's", z3.BoolVal(isinstance(lo, Loc) and lo.id != ctx["src"][f].id))
+            if f != "_actions":
+                st.oblige(f"{f}: source content unchanged", st.load(ls).same(ctx["c0"][f]))
+                st.oblige(f"{f}: new content equals the source's", _content_same(st.load(lo), ctx["c0"][f], _AG_FIELDS[f]))
+        got = B.as_sseq(eng, st, eng.deref(st, st.getfield(new, "_actions")), _Action)
+        acts = ctx["acts"]
+        st.oblige("_actions: source content unchanged", st.load(st.getfield(ctx["selfv"], "_actions")).same(acts))
+        j = z3.Int(fresh_name("j"))
+        f_ = B._uf("Action22.clone()", _Action.z3sort(), _Action.z3sort())
+        st.oblige("_actions: the new agent holds the clone of every action of the source, in order",
+                  z3.And(got.n == acts.n, z3.ForAll([j], z3.Implies(z3.And(0 <= j, j < acts.n), z3.Select(got.arr, j) == f_(z3.Select(acts.arr, j))))))
+
+
 UNITS = [
     MAClone(),
+    AgentClone(False),
+    AgentClone(True),
     CloneTo(_mx.FluentsSetMixin, {"_fluents": ("list", "Fluent"), "_initial_defaults": ("dict", "Type", "FNode"), "_fluents_defaults": ("dict", "Fluent", "FNode")}),
     CloneTo(_mx.InitialStateMixin, {"_initial_value": ("dict", "FNode", "FNode")}),
     CloneTo(_mx.ObjectsSetMixin, {"_objects": ("list", "Object")}),
@@ -676,6 +784,9 @@ def replay_file(data):
 
 LEVEL = "other"
 EXPLANATION = __doc__
-TRUSTED = ["proved: only the flat mixin _clone_to methods (fresh containers, equal content, source unchanged); Problem.clone itself, the action / effect / "
+TRUSTED = ["proved: the flat mixin _clone_to methods, MultiAgentProblem.clone and Agent.clone (fresh containers, equal content, source unchanged, agents cloned for the "
+           "clone, actions cloned in order); assumed there: the constructors MultiAgentProblem(name, env) and Agent(name, problem) return a new object with new empty "
+           "containers (Agent: bound to the problem given), Agent.add_action appends the clone of a source action without raising, Action.clone() is a pure function "
+           "of the action (its own independence is bounded); Problem.clone itself, the action / effect / "
            "timed-effect clones (comprehensions over dicts of lists of cloned effects) and the name-resolved metric re-binding are outside pyvc's subset: bounded", "snapshot is repr-based: two different objects with equal repr are not told apart"]
 USES_THEORY = False
